@@ -1,5 +1,5 @@
 (* C06 — maximize returns the CLDR likely-subtags answer. *)
-From UL Require Import Bytes Subtags LangId Likely Inst LikelySpec TablesData LikelyProofs.
+From UL Require Import Bytes Subtags LangId Likely Inst LikelySpec TablesData LikelyProofs LikelySpecProofs.
 From Coq Require Import String.
 
 (* every entry K -> V of likelySubtags.json (other than bare "und"): maximize(K) = V.
@@ -18,6 +18,29 @@ Proof. exact (maximize_total the_tables data_full_extend data_wf_ints). Qed.
 Example C06_ex : In (bs "und-Arab-IN"%string, bs "ur-Arab-IN"%string) the_dict.
 Proof. apply dict_mem_in. vm_compute. reflexivity. Qed.
 
+(* for EVERY well-formed (language, script, region) - known or unknown subtags alike - the table
+   cascade on integer keys returns exactly what the dictionary reference built from the strings of
+   likelySubtags.json returns: the most specific matching entry ((language, region) or (language,
+   script), then language; for `und`: (script, region), then script, or region), every given subtag
+   kept; "unchanged" exactly when all three are present or no entry matches *)
+Theorem C06_spec : forall l s r, wf_triple l s r = true ->
+  maximize the_tables l s r = Ok (spec_maximize the_dict l s r).
+Proof. exact maximize_is_spec. Qed.
+Theorem C06_unchanged_iff : forall l s r, wf_triple l s r = true ->
+  (maximize the_tables l s r = Ok None <->
+   (s_is_some l && s_is_some s && s_is_some r = true \/ first_hit (candidates l s r) the_dict = None
+    \/ exists v, first_hit (candidates l s r) the_dict = Some v /\ parse_value v = None)).
+Proof.
+  intros l s r W. rewrite (maximize_is_spec l s r W). unfold spec_maximize.
+  destruct (s_is_some l && s_is_some s && s_is_some r); [split; auto|].
+  destruct (first_hit (candidates l s r) the_dict) as [v|]; [|split; auto].
+  destruct (parse_value v) as [[[a b] c]|] eqn:P.
+  - split; [discriminate|]. intros [H|[H|(v' & H & H')]]; try discriminate. injection H as <-. congruence.
+  - split; [intros _; right; right; eauto|reflexivity].
+Qed.
+
+Print Assumptions C06_spec.
+Print Assumptions C06_unchanged_iff.
 Print Assumptions C06_all_entries.
 Print Assumptions C06_unchanged_when_full.
 Print Assumptions C06_total.
